@@ -198,6 +198,8 @@ package xmpp
 //@   callsite select#1
 //@     after: chosen = ret0
 //@   ensures[C06] chosen == 1 && err == nil ==> handlerCalls == 1
+// ... and one that was handed to its requester never reaches the handler as well
+//@   ensures[C06] chosen == 0 ==> handlerCalls == 0
 //@   loop 1
 //@     invariant[C08] !compared && (forall j int :: 0 <= j && j <= rangeindex ==> !unq(start.Attr[j], "from"))
 
